@@ -22,7 +22,7 @@ CHECKS["C01"] = dict(
 CHECKS["C02"] = dict(
     src="C02.cpp", level="model_checking",
     entries=[
-        dict(name="harness_c02_pairs", quick={}, thorough={"gauss_rat": 1}),
+        dict(name="harness_c02_pairs", quick={"_opts": ["--fast-ms", "1000", "--slow-ms", "120000"]}, thorough={"gauss_rat": 1}),
         dict(name="harness_c02_triples", quick={"thi": 10, "skipmask": (1 << 1) | (1 << 2) | (1 << 4)}, thorough={}),
         dict(name="harness_c02_numtriples", quick={}, thorough={}, thorough_only=True),
         dict(name="harness_c02_setorder", quick={"tlo": 0, "thi": 9, "skipmask": (1 << 1) | (1 << 2) | (1 << 4)}, thorough={}),
@@ -47,11 +47,11 @@ CHECKS["C29"] = dict(
 CHECKS["C09"] = dict(
     src="C09.cpp", level="model_checking",
     entries=[
-        dict(name="harness_c09_value", quick={"B": 2, "kmax": 3}, thorough={"B": 6, "kmax": 4}),
+        dict(name="harness_c09_value", quick={"B": 1, "kmax": 3}, thorough={"B": 3, "kmax": 4, "_wall": 2400}),
         dict(name="harness_c09_identity", quick={"B": 2}, thorough={"B": 4}),
     ],
     anchors=["SymEngine::ExpandVisitor", "SymEngine::expand("],
-    bounds="6 shapes: (c0+c1 x+c2 y)^k k<=3 (4), products of two/three linear forms incl. an opaque f(x) atom, k*(l1*l2)+l3^2, (l1*l2)^-2, rational coefficients; integer coefficient slots |c|<=3 (6) symbolic (exact Z), x, y, f(x) arbitrary reals; identity decision for (ax+b)(cx+d) vs e2 x^2+e1 x+e0",
+    bounds="6 shapes: (c0+c1 x+c2 y)^k k<=3 (4), products of two/three linear forms incl. an opaque f(x) atom, k*(l1*l2)+l3^2, (l1*l2)^-2, rational coefficients; integer coefficient slots |c|<=1 (3) symbolic (exact Z), x, y, f(x) arbitrary reals; identity decision for (ax+b)(cx+d) vs e2 x^2+e1 x+e0",
     outside=["more than 3 factors", "exponents above 4", "non-polynomial atoms other than one opaque function application"],
     assumptions=["value oracle D2 (vlib/veval.h): Add/Mul/Pow node meaning over the reals"],
 )
